@@ -59,6 +59,15 @@ func (this *ONTHandler) SyncGenesisHeader(native *native.NativeService) error {
 	if err != nil {
 		return fmt.Errorf("ONTHandler SyncGenesisHeader, deserialize header err: %v", err)
 	}
+	//the genesis header can be synced only once: a stored current header height means a header was stored before
+	heightStore, err := native.GetCacheDB().Get(utils.ConcatKey(utils.HeaderSyncContractAddress,
+		[]byte(hscommon.CURRENT_HEADER_HEIGHT), utils.GetUint64Bytes(params.ChainID)))
+	if err != nil {
+		return fmt.Errorf("ONTHandler SyncGenesisHeader, get current header height error: %v", err)
+	}
+	if heightStore != nil {
+		return fmt.Errorf("ONTHandler SyncGenesisHeader, genesis header had been initialized")
+	}
 	//block header storage
 	err = PutBlockHeader(native, params.ChainID, header)
 	if err != nil {
